@@ -148,9 +148,13 @@ def judge_by_trace(ctx, inp, devs=(), label="judge"):
 
 
 def explain(ctx, inp):
-    """Names of the deviations under which the real behaviour on this case is what the model predicts."""
+    """Names of the deviations under which the real behaviour on this case is what the model predicts (the deviations of the
+    case's own direction; the known ones first - one of them is all the report needs; after 8 explained cases only known ones:
+    a change that breaks many things at once is not made slower to report by the diagnostics)."""
+    explain.calls = getattr(explain, "calls", 0) + 1
+    cands = [d for d in DEVS if d.startswith(inp["mode"] + ".") and (d in ctx.known or explain.calls <= 8)]
     out = []
-    for d in sorted(DEVS, key=lambda d: d not in ctx.known):       # known ones first: one of them is all the report needs
+    for d in sorted(cands, key=lambda d: d not in ctx.known):
         if judge_by_trace(ctx, inp, devs=[d], label="explain")[0]:
             out.append(d)
             if d in ctx.known:
@@ -323,7 +327,7 @@ def gen_runs(quick):
         ("dup N<=3 K=1", dict(N=3, K=1, Leaves='{"string"}', UKinds='{"user"}', Modes='{"dup"}', Decos="{3}", Script='"copyfirst"')),
         # an attribute held by two objects (what Extend leaves behind once a design is finalized): every graph of <= 3 nodes after
         # one merge of an object's attributes into another object; copy + one step on either side, and the hash direction
-        ("aliased attributes N<=3", dict(N=3, K=2, Leaves='{"string"}', UKinds='{"user"}', Modes='{"hash", "dup"}', Decos="{0, 3}",
+        ("aliased attributes N<=3", dict(N=3, K=2, Leaves='{"string"}', UKinds='{"user"}', Modes='{"hash", "dup"}', Decos="{3}",
                                          Shapes='"aliased"', MaxSteps=1, Script='"paired"')),
     ]
     if quick:
@@ -341,7 +345,7 @@ def gen_runs(quick):
             ("dup N<=3 results", dict(N=3, K=2, Leaves='{"string"}', UKinds='{"result"}', Modes='{"dup"}', Decos="{2}", Script='"paired"')),
             # 5 nodes: every graph with DAG sharing, the sharing transformations only
             ("aliased attributes N<=4", dict(N=4, K=2, Leaves='{"string"}', UKinds='{"user", "result"}', Modes='{"hash", "dup"}', Decos="{0, 3}",
-                                             Shapes='"aliased"', MaxSteps=2, Script='"paired"')),
+                                             Shapes='"aliased"', MaxSteps=1, Script='"paired"')),
             ("hash sharing N<=5", dict(N=5, K=2, Leaves='{"string"}', UKinds='{"user"}', Modes='{"hash"}', Decos="{0}",
                                        Shapes='"shared"', Ops='"sharing"')),
         ]
